@@ -26,15 +26,27 @@ def parseInt64 (s : Bytes) : Option Int :=
 
 def asciiB (s : String) : Bytes := s.toUTF8.toList
 
+/-- one row of the settings query: `_versions[ver] = _time` when the value parses -/
+def verStep (m : VersionInfo) (r : Bytes × Bytes) : VersionInfo :=
+  match parseInt64 r.2 with
+  | some t => (r.1, t) :: m
+  | none => m
+
 /-- `GetVersionInfo`: the rows of
     `SELECT argMax(name, inserted_at) as _name, argMax(value, inserted_at) as _value FROM settings[_dist] WHERE type='update' …`
     in result order (a value that does not parse is skipped, a later row of the same name wins) and the names of
     `SHOW TABLES` (without a `metrics_15s[_dist]` table the feature `v5` is supported since ever) -/
 def versionInfo (rows : List (Bytes × Bytes)) (tables : List Bytes) : VersionInfo :=
-  let m : VersionInfo := rows.foldl (fun m r => match parseInt64 r.2 with
-    | some t => (r.1, t) :: m
-    | none => m) []
+  let m : VersionInfo := rows.foldl verStep []
   if tables.any (fun t => t == asciiB "metrics_15s" || t == asciiB "metrics_15s_dist") then m else (asciiB "v5", 0) :: m
+
+/-- the value of the LAST row of that name whose value parses (what the map holds for the name) -/
+def lastParsed (name : Bytes) : List (Bytes × Bytes) → Option Int
+  | [] => none
+  | r :: rs =>
+    match lastParsed name rs with
+    | some t => some t
+    | none => if name == r.1 then parseInt64 r.2 else none
 
 /-- int64 arithmetic wraps -/
 def wrap64 (x : Int) : Int := Int.bmod x 18446744073709551616
